@@ -517,3 +517,131 @@ _base_scn_uc = scenarios
 
 def scenarios():
     return _base_scn_uc() + [userid_copy()]
+
+
+def compressed_parse():
+    """CompressedData.parse: algorithm octet, the rest of the body handed to that algorithm's decompressor in one piece, and EVERY octet
+    of what comes back read as nested packets, front to back (the nested reader is given by contract: it takes k >= 1 octets from the
+    front of the buffer it is given, in place); exactly the body is consumed from the outer buffer."""
+    label = 'C08/CompressedData.parse'
+    CD = P + 'CompressedData'
+
+    def gen(repo):
+        r = scn.Run(repo, CD, 'parse', label)
+        ex, st = r.ex, r.st
+        OLD, HL, PLAIN = z3.Const('RECEIVED', B), z3.Int('header_length'), z3.Const('WHAT_THE_DECOMPRESSOR_RETURNS', B)
+        me = E.VObj(CD, 'pkt')
+        _hdr(r, HL)
+        ALG = OLD[0]
+        st.pc += [z3.Length(OLD) >= HL, HL >= 1, ALG >= 0, ALG <= 3]
+        buf = ex.new_buf(st, OLD)
+        r.set('pkt', 'packets', ex.new_list(st, []))
+
+        def decompress(ex, st, o, a):
+            st.ghost['dec'] = st.ghost.get('dec', ()) + ((o, a[0]),)
+            return [(st, E.VBytes(PLAIN))]
+        r.hook('pgpy.constants.CompressionAlgorithm', 'decompress', scn.method_hook(decompress))
+
+        def packet(ex, st, c, a):
+            if not isinstance(a[0], E.VBuf):
+                raise E.ToolLimit('nested packet reader called on something that is not a mutable buffer')
+            S = st.heap[a[0].cell]
+            k = E.fresh('consumed')
+            st.pc += [k >= 1, k <= z3.Length(S)]
+            st.heap[a[0].cell] = z3.Extract(S, k, z3.Length(S) - k)
+            st.ghost['inner'] = a[0]
+            st.ghost['read_from'] = st.ghost.get('read_from', ()) + (S,)
+            p = E.VObj(P + 'LiteralData', E.fresh('nested'))
+            st.ghost['last_read'] = p
+            return [(st, p)]
+        r.hook('pgpy.packet.types.Packet', '__call__', packet)
+        loops = ex.register_loops('parse', r.node)
+
+        def local(st, env, name):
+            e = env
+            while e is not None:
+                if name in st.envs.get(e.eid, {}):
+                    return st.envs[e.eid][name]
+                e = e.parent
+            return None
+
+        def inv(ex, st, env):
+            cd = local(st, env, 'cdata')
+            if not isinstance(cd, E.VBuf):
+                return z3.BoolVal(False)
+            cur = st.heap[cd.cell]
+            n, L = z3.Length(cur), z3.Length(PLAIN)
+            lst = st.heap.get(('pkt', 'packets'))
+            items = ex.items(lst, st) if isinstance(lst, E.VList) else None
+            lr = st.ghost.get('last_read')
+            # what is still to be read is a SUFFIX of what the decompressor returned (nothing is dropped at either end, nothing skipped),
+            # and the packet read in this iteration is the last one of the list
+            return z3.And(n >= 0, n <= L, cur == z3.Extract(PLAIN, L - n, n), z3.BoolVal(lr is None or (items is not None and len(items) > 0 and items[-1] is lr)))
+
+        def havoc(ex, st, env):
+            cd = local(st, env, 'cdata')
+            if isinstance(cd, E.VBuf):
+                st.heap[cd.cell] = E.fresh('inner_buffer', B)
+                st.ghost['inner'] = cd
+            st.ghost['last_read'] = None
+
+        def variant(ex, st, env):
+            cd = local(st, env, 'cdata')
+            return z3.Length(st.heap[cd.cell]) if isinstance(cd, E.VBuf) else z3.IntVal(0)
+        spec = {'name': 'nested-packets-front-to-back', 'inv': inv, 'havoc': havoc, 'variant': variant}
+        for i in range(len(loops)):
+            ex.loops[('parse', i)] = spec
+        for pi, (s, v) in enumerate(r.call(me, [buf])):
+            if isinstance(v, E.Raise):
+                r.oblige(s, 'safety(%s)/p%d' % (v.exc.split(':')[0], pi), z3.BoolVal(False), v.where)
+                continue
+            calg = s.heap.get(('pkt', '_calg'))
+            r.oblige(s, 'algorithm-is-the-first-octet/p%d' % pi, ex.as_int(calg) == ALG if isinstance(calg, (E.VInt, E.VBool)) else z3.BoolVal(False))
+            dec = s.ghost.get('dec', ())
+            ok = len(dec) == 1
+            r.oblige(s, 'the-rest-of-the-body-goes-to-the-decompressor-of-that-algorithm-in-one-piece/p%d' % pi,
+                     z3.And(z3.BoolVal(ok), z3.And(ex.as_int(dec[0][0]) == ALG, ex.seq(dec[0][1], s) == z3.Extract(OLD, 1, HL - 1)) if ok else z3.BoolVal(False)))
+            r.oblige(s, 'consumes-exactly-the-body/p%d' % pi, s.heap[buf.cell] == z3.Extract(OLD, HL, z3.Length(OLD) - HL))
+            inner = s.ghost.get('inner')
+            r.oblige(s, 'every-octet-of-the-decompressed-data-is-read-as-nested-packets/p%d' % pi,
+                     z3.Or(z3.Length(PLAIN) == 0, z3.Length(s.heap[inner.cell]) == 0) if inner is not None else z3.Length(PLAIN) == 0)
+        return r.result()
+    return Scenario(label, CD + '.parse', gen, props=('C08', 'C20'))
+
+
+def compressed_bytes():
+    """CompressedData.__bytearray__: header, algorithm octet, then the compressor of that algorithm applied once to the concatenation of
+    the nested packets in order"""
+    label = 'C08/CompressedData.__bytearray__'
+    CD = P + 'CompressedData'
+
+    def gen(repo):
+        r = scn.Run(repo, CD, '__bytearray__', label)
+        ex, st = r.ex, r.st
+        HDR = z3.Const('HEADER', B)
+        ALG = z3.Int('algorithm')
+        st.pc += [ALG >= 0, ALG <= 3]
+        COMP = z3.Function('COMPRESS', z3.IntSort(), B, B)
+        me = E.VObj(CD, 'pkt')
+        r.hook('pgpy.packet.types.Packet', '__bytearray__', scn.method_hook(lambda ex, st, o, a: [(st, ex.new_buf(st, HDR))]))
+        r.set('pkt', '_calg', E.VInt(ALG, enum='pgpy.constants.CompressionAlgorithm'))
+        NB = [z3.Const('NESTED_%d' % i, B) for i in range(3)]
+        nested = [E.VObj(P + 'LiteralData', 'n%d' % i) for i in range(3)]
+        r.set('pkt', 'packets', ex.new_list(st, nested))
+        r.hook(P + 'LiteralData', '__bytearray__', scn.method_hook(lambda ex, st, o, a: [(st, ex.new_buf(st, NB[int(o.ref[1:])]))]))
+        r.hook('pgpy.constants.CompressionAlgorithm', 'compress', scn.method_hook(lambda ex, st, o, a: [(st, E.VBytes(COMP(ex.as_int(o), ex.seq(a[0], st))))]))
+        for pi, (s, v) in enumerate(r.call(me, [])):
+            if isinstance(v, E.Raise):
+                r.oblige(s, 'safety(%s)/p%d' % (v.exc.split(':')[0], pi), z3.BoolVal(False), v.where)
+                continue
+            r.oblige(s, 'header,algorithm-octet,compressed(nested-packets-in-order)/p%d' % pi,
+                     ex.seq(v, s) == z3.Concat(HDR, z3.Unit(ALG), COMP(ALG, z3.Concat(*NB))))
+        return r.result()
+    return Scenario(label, CD + '.__bytearray__', gen, props=('C08', 'C20'))
+
+
+_base_scn_cd = scenarios
+
+
+def scenarios():
+    return _base_scn_cd() + [compressed_parse(), compressed_bytes()]
